@@ -7,7 +7,6 @@ import (
 	"fmt"
 	"os"
 	"strings"
-	"time"
 
 	"github.com/ipfs/boxo/verifshim/eng"
 	"github.com/ipfs/boxo/verifshim/vexp"
@@ -24,8 +23,11 @@ func seqPlans(thorough bool) []seqPlan {
 		out = append(out, seqPlan{config{L: L, R: 16, T: 44}, d}, seqPlan{config{L: L, R: 0, T: 1}, d})
 	}
 	out = append(out, seqPlan{config{L: 2, R: 16, T: 44, Zero: true}, d + 1})
-	// one configuration one level deeper
+	// one configuration one level deeper (thorough: the three r16-t44 configurations)
 	out[2].depth = d + 1 // L2-r16-t44
+	if thorough {
+		out[0].depth, out[4].depth = d+1, d+1 // L1-r16-t44, L3-r16-t44
+	}
 	if thorough {
 		// the other pairing of replace size and target message size, other tiebreak winner
 		out = append(out, seqPlan{config{L: 1, R: 16, T: 1, Tie: 1}, 4}, seqPlan{config{L: 2, R: 0, T: 44, Tie: 1}, 4}, seqPlan{config{L: 3, R: 16, T: 1, Tie: 1}, 4})
@@ -45,20 +47,12 @@ func main() {
 		eng.WorkerMain()
 	}
 	eng.Main("C36", "model_checking", func(r *eng.Run) {
-		// debugging aid: VERIF_C36_SCRIPT="L2-r16-t44-z0-tie0;r1:bA1,pull,sent" runs one script and prints its log
+		// debugging aid: VERIF_C36_SCRIPT="L2-r16-t44-z0-tie0-w0;r1:bA1 pull sent" runs one script and prints its log
 		if s := os.Getenv("VERIF_C36_SCRIPT"); s != "" {
 			parts := strings.SplitN(s, ";", 2)
 			var ops []string
 			if len(parts) > 1 && parts[1] != "" {
 				ops = strings.Split(parts[1], " ")
-			}
-			if os.Getenv("VERIF_C36_BENCH") != "" {
-				cfg, _ := parseConfig(parts[0])
-				t0 := time.Now()
-				for i := 0; i < 200; i++ {
-					runSeq(cfg, ops, false)
-				}
-				fmt.Printf("200 runs in %v\n", time.Since(t0))
 			}
 			replaySeq(r, seqReplay{"seq", parts[0], ops})
 			r.Incomplete("single script (debug)")
